@@ -20,6 +20,7 @@ from pyvc.unit import unit
 from pyvc import core
 
 LEVEL = "other"
+STANDIN_ALWAYS_THOROUGH = True      # its large bound takes seconds: used at both tiers
 EXPLANATION = ("MIXED. WSGIContainer.environ decided by exhaustive case analysis on the real method over 14 Host forms x scheme x content-header presence x extra "
                "headers: never raises; SERVER_NAME / SERVER_PORT are the Host's name and port (scheme default without one, also for an empty port), the request "
                "fields map to their CGI keys, content headers are moved to CONTENT_TYPE / CONTENT_LENGTH, other headers become HTTP_* keys. Request and response "
